@@ -5,7 +5,8 @@ M: spec/Shell.tla: grammar of the permitted command lines (strict dotted quads, 
    exactly the strictly validated fields yield a valid command and that validated fields are inert.
 G: the real client logs in to the real server through a man in the middle that replaces the login answer with generated
    payloads (attack strings in the server-address, client-address, mtu and netmask fields) under every query type and
-   downstream encoding; system() is wrapped by the harness.
+   downstream encoding, on simulated hosts with net-tools, with iproute2 only, with both and with neither (access() is
+   answered by the harness); system() is wrapped by the harness.
 T: every command line the client passes to system() is parsed character by character by TLC (TraceShell).
 """
 import itertools
@@ -72,7 +73,7 @@ def specs(tier, seed):
         out.append({"seed": seed * 100000 + i, "sess": {"qtype": qt}, "pkts": [], "dur_ms": 100, "hs_limit_ms": 60000,
                     "plan": [{"kind": "login", "k": 0, "n": 1, "mode": "replace", "what": "payload",
                               "payload": pl.encode("latin-1").hex(), "downenc": de}],
-                    "label": "login%d" % i, "payload": pl})
+                    "host": [0, 1, 3, 2][i % 4] if i % 3 else 0, "label": "login%d" % i, "payload": pl})
     # reply HISTORIES within one login handshake: a first reply that does not configure anything (garbage, too few
     # fields, numbers out of range with and without well-formed addresses, ...) makes the client ask again; the reply to
     # that retry carries the attack text.  A verdict that survives from one reply to the next is exposed here.
@@ -99,7 +100,7 @@ def specs(tier, seed):
             plan.append(dict(plan[1], k=2))
             plan[1] = dict(plan[0], k=1, payload=rng.choice(firsts).encode("latin-1").hex())
         out.append({"seed": seed * 100000 + base + i, "sess": {"qtype": qt}, "pkts": [], "dur_ms": 100, "hs_limit_ms": 60000,
-                    "plan": plan, "label": "loginseq%d" % i, "payload": a + " || " + b})
+                    "host": [0, 1, 3, 2][i % 4], "plan": plan, "label": "loginseq%d" % i, "payload": a + " || " + b})
     return out
 
 
